@@ -172,7 +172,7 @@ void ppl_set_GMP_memory_allocation_functions(void) { mp_set_memory_functions(c14
 }
 // Sanitizer builds: blocks are deliberately abandoned (objects that cannot be destroyed after a failure, known library leaks), and the
 // leak oracle of this harness is its own accounting: LeakSanitizer's report at exit is switched off.
-extern "C" const char* __asan_default_options() { return "detect_leaks=0"; }
+// (sanitizer default options: common.hh)
 #define LIB(stmt) do { mem::Call vf_call_guard_; stmt; } while (0)
 
 // ------------------------------------------------------------------ abandonment
@@ -760,7 +760,7 @@ struct MipWorld {
 
 // ------------------------------------------------------------------ part B: PIP_Problem world
 struct PStep { int kind; std::vector<RCon> cs; int sub; };
-static const char* const pstep_names[] = { "add_constraint", "add_constraints", "solve", "is_satisfiable", "copy/assign/swap", "add_space_dimensions_and_embed", "set_control_parameter", "optimizing_solution" };
+static const char* const pstep_names[] = { "add_constraint", "add_constraints", "solve", "is_satisfiable", "copy/assign/swap", "add_space_dimensions_and_embed", "set_control_parameter", "optimizing_solution", "solution_values" };
 struct PipPlain {
   size_t n; std::vector<long> params; std::vector<RCon> init; std::vector<PStep> steps; bool gmp; int mode_pref;
   std::string str() const {
@@ -776,7 +776,7 @@ static PipPlain gen_pipplain(Tape& t) {
   int m = (int) t.range(0, 4); for (int i = 0; i < m; ++i) P.init.push_back(gen_pcon(t, n));
   for (size_t j = 0; j < n; ++j) if (P.params.empty() || (long) j != P.params[0]) { RCon hi; hi.e = LE(n); hi.e.a[j] = -1; hi.e.b = 5; hi.kind = 1; P.init.push_back(hi); }
   int ns = (int) t.range(2, 5);
-  for (int i = 0; i < ns; ++i) { PStep s; s.kind = t.weighted({14, 8, 32, 8, 12, 8, 8, 10}); s.sub = (int) t.range(0, 3); int k = (int) t.range(1, 2); for (int q = 0; q < k; ++q) s.cs.push_back(gen_pcon(t, n)); P.steps.push_back(s); }
+  for (int i = 0; i < ns; ++i) { PStep s; s.kind = t.weighted({14, 8, 32, 8, 12, 8, 8, 10, 16}); s.sub = (int) t.range(0, 3); int k = (int) t.range(1, 2); for (int q = 0; q < k; ++q) s.cs.push_back(gen_pcon(t, n)); P.steps.push_back(s); }
   return P;
 }
 static std::string pip_value(const PIP_Problem& p) {
@@ -788,6 +788,7 @@ static std::string pip_value(const PIP_Problem& p) {
 struct PipWorld {
   typedef PipPlain Plain;
   const Plain& P; PIP_Problem p, q;
+  bool solved = false;   // p was solved by an earlier step and not modified since: step 8 queries the stored tree without re-solving
   static std::string family(const Plain&) { return "PIP_Problem"; }
   static int nsteps(const Plain& p) { return (int) p.steps.size(); }
   int steps() const { return (int) P.steps.size(); }
@@ -795,14 +796,28 @@ struct PipWorld {
     if (!P.params.empty()) { Variables_Set vs; for (long j : P.params) vs.insert(Variable(j)); LIB(p.add_to_parameter_space_dimensions(vs)); }
     for (const RCon& r : P.init) { Constraint c = to_ppl(r); LIB(p.add_constraint(c)); }
   }
-  bool is_const_step(int i) const { int k = P.steps[i].kind; return k == 2 || k == 3 || k == 7; }
+  bool is_const_step(int i) const { int k = P.steps[i].kind; return k == 2 || k == 3 || k == 7 || k == 8; }
   std::string step_name(int i) const { return pstep_names[P.steps[i].kind]; }
-  void assign_from(const PipWorld& w) { p = w.p; q = w.q; }
+  void assign_from(const PipWorld& w) { p = w.p; q = w.q; solved = w.solved; }
   std::string diff(const PipWorld& w) const { return "\n  p = " + pip_value(p) + "\n  clean run: " + pip_value(w.p) + "\n  q = " + pip_value(q) + "\n  clean run: " + pip_value(w.q); }
   bool equal(const PipWorld& w) const { return pip_value(p) == pip_value(w.p) && pip_value(q) == pip_value(w.q); }
   // KF-C14-7: a failure inside solve() / is_satisfiable() / optimizing_solution() leaves the solution tree half updated (or deleted
   // with the pointer kept): the problem may crash when it is used, assigned to or destroyed
-  const char* poison(int i) const { return is_const_step(i) ? "KF-C14-7" : 0; }
+  // (step 8 only reads the lazily computed values of the stored solution nodes: PIP_Solution_Node::update_solution() sets its validity
+  // flag last, so an interrupted query must be repeatable - not part of KF-C14-7)
+  const char* poison(int i) const { return is_const_step(i) && P.steps[i].kind != 8 ? "KF-C14-7" : 0; }
+  // parametric values of every variable in every solution node; only the library call is inside the faulted region
+  void values(Obs& obs, const PIP_Tree_Node* r) {
+    if (r == 0) { note(obs, "values _|_", 0); return; }
+    if (const PIP_Solution_Node* sn = r->as_solution()) {
+      const Variables_Set& ps = p.parameter_space_dimensions();
+      for (dimension_type v = 0; v < p.space_dimension(); ++v) if (ps.count(v) == 0) {
+        const Linear_Expression* e = 0; LIB(e = &sn->parametric_values(Variable(v)));
+        mem::Pause pz; std::ostringstream o; o << "value x" << v << " = " << *e; obs.push_back(o.str()); }
+      return; }
+    const PIP_Decision_Node* dn = r->as_decision(); const PIP_Tree_Node* tc = 0; const PIP_Tree_Node* fc = 0;
+    LIB(tc = dn->child_node(true)); LIB(fc = dn->child_node(false)); values(obs, tc); values(obs, fc);
+  }
   void after_failure(Report& c, int i, const PipWorld& snap, const std::string& fam, const std::string& where, int phase) {
     const PStep& st = P.steps[i]; c.cls = pstep_names[st.kind]; std::string what = std::string(pstep_names[st.kind]) + " (" + where + ")";
     bool cst = is_const_step(i);
@@ -817,14 +832,15 @@ struct PipWorld {
   void step(int i, Obs& obs) {
     const PStep& st = P.steps[i];
     switch (st.kind) {
-    case 0: { Constraint c = to_ppl(st.cs[0]); LIB(p.add_constraint(c)); break; }
-    case 1: { Constraint_System cs; for (const RCon& r : st.cs) cs.insert(to_ppl(r)); LIB(p.add_constraints(cs)); break; }
-    case 2: { PIP_Problem_Status s; LIB(s = p.solve()); note(obs, "solve", (long) s); const PIP_Tree_Node* r = 0; LIB(r = p.solution()); tree(obs, "solution", r); break; }
-    case 3: { bool b; LIB(b = p.is_satisfiable()); note(obs, "is_satisfiable", b); break; }
-    case 4: { if (st.sub == 0) { PIP_Problem tmp(p); LIB(q = tmp); } else if (st.sub == 1) { LIB(q = p); LIB(p.m_swap(q)); } else { PIP_Problem tmp(p); LIB(tmp.m_swap(p)); } break; }
-    case 5: { dimension_type d = p.space_dimension(); if (d >= 5) break; if (st.sub % 2 == 0) { LIB(p.add_space_dimensions_and_embed(1, 0)); Constraint c1(Variable(d) <= 4); LIB(p.add_constraint(c1)); } else LIB(p.add_space_dimensions_and_embed(0, 1)); break; }
-    case 6: { if (st.sub == 0) LIB(p.set_control_parameter(PIP_Problem::CUTTING_STRATEGY_DEEPEST)); else if (st.sub == 1) LIB(p.set_control_parameter(PIP_Problem::CUTTING_STRATEGY_ALL)); else if (st.sub == 2) LIB(p.set_control_parameter(PIP_Problem::PIVOT_ROW_STRATEGY_MAX_COLUMN)); else LIB(p.set_control_parameter(PIP_Problem::CUTTING_STRATEGY_FIRST)); break; }
-    default: { const PIP_Tree_Node* r = 0; LIB(r = p.optimizing_solution()); tree(obs, "optimizing_solution", r); break; }
+    case 0: { solved = false; Constraint c = to_ppl(st.cs[0]); LIB(p.add_constraint(c)); break; }
+    case 1: { solved = false; Constraint_System cs; for (const RCon& r : st.cs) cs.insert(to_ppl(r)); LIB(p.add_constraints(cs)); break; }
+    case 2: { PIP_Problem_Status s; LIB(s = p.solve()); note(obs, "solve", (long) s); const PIP_Tree_Node* r = 0; LIB(r = p.solution()); if (st.sub != 3) tree(obs, "solution", r); /* (printing fills the nodes' value caches: sometimes left to step 8) */ solved = true; break; }
+    case 3: { bool b; LIB(b = p.is_satisfiable()); note(obs, "is_satisfiable", b); solved = true; break; }
+    case 8: { if (!solved) { note(obs, "solution_values skipped", 0); break; } const PIP_Tree_Node* r = 0; LIB(r = p.solution()); values(obs, r); break; }
+    case 4: { if (st.sub != 0) solved = false; if (st.sub == 0) { PIP_Problem tmp(p); LIB(q = tmp); } else if (st.sub == 1) { LIB(q = p); LIB(p.m_swap(q)); } else { PIP_Problem tmp(p); LIB(tmp.m_swap(p)); } break; }
+    case 5: { dimension_type d = p.space_dimension(); if (d >= 5) break; solved = false; if (st.sub % 2 == 0) { LIB(p.add_space_dimensions_and_embed(1, 0)); Constraint c1(Variable(d) <= 4); LIB(p.add_constraint(c1)); } else LIB(p.add_space_dimensions_and_embed(0, 1)); break; }
+    case 6: { solved = false; if (st.sub == 0) LIB(p.set_control_parameter(PIP_Problem::CUTTING_STRATEGY_DEEPEST)); else if (st.sub == 1) LIB(p.set_control_parameter(PIP_Problem::CUTTING_STRATEGY_ALL)); else if (st.sub == 2) LIB(p.set_control_parameter(PIP_Problem::PIVOT_ROW_STRATEGY_MAX_COLUMN)); else LIB(p.set_control_parameter(PIP_Problem::CUTTING_STRATEGY_FIRST)); break; }
+    default: { const PIP_Tree_Node* r = 0; LIB(r = p.optimizing_solution()); if (st.sub != 3) tree(obs, "optimizing_solution", r); solved = true; break; }
     }
   }
 };
@@ -973,10 +989,15 @@ template <class D> static void part_a_dom(Ctx& c) {
   Linear_Expression e = ple.ppl(), big = pbig.ppl();
   Variable v0((dimension_type) t.range(0, (long) n - 1)), vbad(n);
   Variables_Set vs_bad; vs_bad.insert(Variable(n)); Variables_Set vs_v0; vs_v0.insert(v0); Variables_Set vs_none;
-  Constraint c_big = K == K_GRID ? Constraint(big == 0) : Constraint(big >= 0); Constraint_System cs_big; cs_big.insert(c_big);
-  Congruence cg_big = (big %= 0) / 0; Congruence_System cgs_big; cgs_big.insert(cg_big);
+  // (in about 40% of the cases the offending element of a system comes after a well-formed one that cuts the witness point off - derived
+  // from choices already made, so that saved tapes keep their meaning: a call that validates while it applies leaves that part behind)
+  bool mixed = wit[0] % 2 != 0; long wv = wit[v0.id()];
+  Constraint c_valid = K == K_GRID ? Constraint(Linear_Expression(v0) == wv + 1) : Constraint(Linear_Expression(v0) <= wv - 1); Congruence cg_valid = (Linear_Expression(v0) %= wv + 1) / 0;
+  if (mixed) c.log << "  (ill-formed systems start with the well-formed " << c_valid << ")\n";
+  Constraint c_big = K == K_GRID ? Constraint(big == 0) : Constraint(big >= 0); Constraint_System cs_big; if (mixed) cs_big.insert(c_valid); cs_big.insert(c_big);
+  Congruence cg_big = (big %= 0) / 0; Congruence_System cgs_big; if (mixed) cgs_big.insert(cg_valid); cgs_big.insert(cg_big);
   Congruence cg_proper = (Linear_Expression(v0) %= 1) / 2;
-  Constraint c_strict(Linear_Expression(v0) > 0); Constraint_System cs_strict; cs_strict.insert(c_strict);
+  Constraint c_strict(Linear_Expression(v0) > 0); Constraint_System cs_strict; if (mixed) cs_strict.insert(c_valid); cs_strict.insert(c_strict);
   Constraint_System cs_small; cs_small.insert(K == K_GRID ? Constraint(Linear_Expression(v0) == 1) : Constraint(Linear_Expression(v0) <= 1));
   Relation_Symbol rel = K == K_GRID ? EQUAL : relsym((int) t.range(0, 2));
   Coefficient num, den; bool mx; Generator gw = point();
@@ -1072,7 +1093,7 @@ template <class D> static void part_a_dom(Ctx& c) {
     OP("add_generators.dim", X_INV, Generator_System gs; gs.insert(point(big)); x.add_generators(gs));
     OP("relation_with.generator", X_INV, (void) x.relation_with(point(big)));
     OP("add_congruence.proper", X_INV, x.add_congruence(cg_proper));
-    OP("add_congruences.proper", X_INV, Congruence_System s; s.insert(cg_proper); x.add_congruences(s));
+    OP("add_congruences.proper", X_INV, Congruence_System s; if (mixed) s.insert(cg_valid); s.insert(cg_proper); x.add_congruences(s));
     OPE("add_generator.ray_to_empty", X_INV, x.add_generator(ray(Linear_Expression(v0))));
     OPE("add_generator.line_to_empty", X_INV, x.add_generator(line(Linear_Expression(v0))));
     OPE("add_generators.no_point_to_empty", X_INV, Generator_System gs; gs.insert(ray(Linear_Expression(v0))); gs.insert(line(Linear_Expression(v0) + 1 * Variable(0))); x.add_generators(gs));
@@ -1099,7 +1120,7 @@ template <class D> static void part_a_dom(Ctx& c) {
     OP("relation_with.grid_generator", X_INV, (void) x.relation_with(grid_point(big)));
     OP("relation_with.generator", X_INV, (void) x.relation_with(point(big)));
     OP("add_constraint.inequality", X_INV, x.add_constraint(Linear_Expression(v0) >= 1));
-    OP("add_constraints.inequality", X_INV, Constraint_System s; s.insert(Linear_Expression(v0) >= 1); x.add_constraints(s));
+    OP("add_constraints.inequality", X_INV, Constraint_System s; if (mixed) s.insert(c_valid); s.insert(Linear_Expression(v0) >= 1); x.add_constraints(s));
     OP("congruence_widening_assign.dim", X_INV, x.congruence_widening_assign(z));
     OP("generator_widening_assign.dim", X_INV, x.generator_widening_assign(z));
     OP("limited_extrapolation_assign.dim", X_INV, Congruence_System s; x.limited_extrapolation_assign(z, s));
@@ -1190,7 +1211,11 @@ static void part_a_mip(Ctx& c) {
   c.log << "}, objective " << obj.str() << "\n";
   bool solved = t.chance(50); if (solved) (void) p.solve();
   LE pbig = gen_le(t, n + 1, false); pbig.a[n] = 1; Linear_Expression big = pbig.ppl(), e = gen_le(t, n, false).ppl();
-  Constraint_System cs_big; cs_big.insert(big >= 0); Constraint_System cs_strict; cs_strict.insert(Variable(0) > 0);
+  // (in about 40% of the cases the offending element comes after a well-formed one - derived from choices already made, so that saved
+  // tapes keep their meaning: a call that validates while it applies would leave the well-formed part behind)
+  bool mixed = wit[0] % 2 != 0; Constraint c_valid(Variable(0) <= wit[0] + 3);
+  Constraint_System cs_big; if (mixed) cs_big.insert(c_valid); cs_big.insert(big >= 0); Constraint_System cs_strict; if (mixed) cs_strict.insert(c_valid); cs_strict.insert(Variable(0) > 0); if (mixed && wit[0] > 0) cs_strict.insert(Variable(0) >= wit[0] - 3);
+  if (mixed) c.log << "  (ill-formed systems start with the well-formed " << c_valid << ")\n";
   Variables_Set vs_bad; vs_bad.insert(Variable(n)); Coefficient num, den; dimension_type maxd = MIP_Problem::max_space_dimension();
   MIP_Problem& x = p; std::vector<Rej> ops;
   OP("set_objective_function.dim", X_INV, x.set_objective_function(big));
